@@ -543,12 +543,17 @@ pub fn total_corpus(rng: &mut Rng, count: usize) -> Vec<String> {
     v.extend(digit_run_sweep());
     v.extend(wide_word_sweep());
     // numbers taken from the clock: the current second, minute, hour and day since the epoch (and neighbours)
-    let now = std::time::SystemTime::now().duration_since(std::time::UNIX_EPOCH).map(|d| d.as_secs()).unwrap_or(0);
+    // (the orchestrator fixes the instant once per check, so that two recorders -- the debug and the release build --
+    // are given the same corpus)
+    let now = std::env::var("FPVERIF_NOW").ok().and_then(|v| v.parse::<u64>().ok())
+        .unwrap_or_else(|| std::time::SystemTime::now().duration_since(std::time::UNIX_EPOCH).map(|d| d.as_secs()).unwrap_or(0));
     for (unit, div) in [("s", 1u64), ("m", 60), ("h", 3600), ("d", 86400), ("", 86400), ("", 60)] {
         for d in [0i64, -1, 1] {
-            let n = (now / div) as i64 + d;
+            // (a count of SECONDS equal to the present second would be taken for the embedded compile time by the
+            // checks that normalise it; those stay an hour away -- the C07 clock stage has the exact ones)
+            let n = if div == 1 { now as i64 - 3600 + d } else { (now / div) as i64 + d };
             for kw in ["-mtime", "-atime", "-ctime", "-mmin", "-amin", "-cmin"] { for sg in ["", "+", "-"] { v.push(format!("{} {}{}{}", kw, sg, n, unit)); } }
-            v.push(format!("-uid {}", n)); v.push(format!("-size {}c", n)); v.push(format!("-links +{}", n));
+            if div != 1 { v.push(format!("-uid {}", n)); v.push(format!("-size {}c", n)); v.push(format!("-links +{}", n)); }
         }
     }
     let mut k = 0usize;
